@@ -294,10 +294,10 @@ Lemma names_of_nil : names_of [] = [].
 Proof. reflexivity. Qed.
 
 Ltac count_names :=
-  unfold kps, blk in *; cbn [k_pok k_va k_kwo] in *;
+  unfold kps, blk in *; cbn [k_pok k_va k_kwo opt_list] in *;
   repeat (rewrite ?names_of_app, ?names_of_set_kind, ?names_of_cons, ?names_of_nil in * );
   cbn [app] in *;
-  repeat (rewrite ?count_occ_app, ?count_occ_cons_eq, ?count_occ_nil in * ); cbn [count_occ] in *.
+  repeat (rewrite ?count_occ_app in * ); cbn [count_occ] in *; unfold name in *.
 
 Lemma count_incl (l l' : list name) :
   (forall y, count_occ N.eq_dec l' y <= count_occ N.eq_dec l y)%nat -> forall y, In y l' -> In y l.
@@ -329,10 +329,10 @@ Proof.
   unfold mask_name. cbn [fst snd k_pok k_va k_kwo k_src k_consumed] in *.
   assert (Emem : mem x cons = false) by (apply mem_false_In; exact Hc). rewrite Emem.
   destruct HK as (H1 & H2 & H3 & H4 & H5).
-  pose proof (split_at_name_spec x pok) as S.
+  pose proof (split_at_name_spec x pok) as Sp.
   destruct (split_at_name x pok) as [[[before p] after]|].
   - (* A: a positional-or-keyword parameter *)
-    destruct S as (-> & Hp & Hxb). subst x.
+    destruct Sp as (-> & Hp & Hxb). subst x.
     apply Forall_app in H2. destruct H2 as [H2a H2b]. inversion H2b as [|? ? Hpk H2c]; subst.
     assert (HK : kinds5 pos1 (before ++ p :: after) va kwo vk).
     { repeat split; auto. apply Forall_app. split; assumption. }
@@ -355,7 +355,7 @@ Proof.
         rewrite names_of_app, names_of_set_kind. intros X.
         assert (Hc0 : (count_occ N.eq_dec (names_of (kwo ++ after)) (pname p) = 0)%nat).
         { pose proof (proj1 (NoDup_count_occ N.eq_dec _) Hn (pname p)) as Hc1. count_names.
-          destruct (N.eq_dec (pname p) (pname p)); [lia|contradiction]. }
+          revert Hc1. destruct (N.eq_dec (pname p) (pname p)) as [_|Hne]; [intros; lia|contradiction]. }
         apply (count_occ_not_In N.eq_dec) in Hc0. apply Hc0. rewrite names_of_app. exact X. }
       rewrite Efr.
       assert (HK' : kinds5 pos1 before None ((kwo ++ map (set_kind KO) after) ++ [p']) vk).
@@ -396,7 +396,7 @@ Proof.
       assert (Hx2 : ~ In (pname p) (names_of l2)).
       { intros X. apply (count_occ_In N.eq_dec) in X.
         pose proof (proj1 (NoDup_count_occ N.eq_dec _) Hn (pname p)) as Hc1. count_names.
-        destruct (N.eq_dec (pname p) (pname p)); [lia|contradiction]. }
+        revert Hc1. destruct (N.eq_dec (pname p) (pname p)) as [_|Hne]; [intros; lia|contradiction]. }
       assert (HK : kinds5 pos1 pok va (l1 ++ p :: l2) vk) by (repeat split; auto).
       apply Forall_app in H4. destruct H4 as [H4a H4b]. inversion H4b as [|? ? Hpk H4c]; subst.
       destruct pm as [pobj|].
@@ -435,7 +435,7 @@ Proof.
       assert (HK : kinds5 pos1 pok va kwo vk) by (repeat split; auto).
       destruct vk as [vkp|]; subst hv; cbn [isSome negb].
       2:{ split; [reflexivity|]. intros m K. unfold kps. cbn [k_pok k_va k_kwo].
-          rewrite (stepC pos1 pok va kwo None m K x HK S F). reflexivity. }
+          rewrite (stepC pos1 pok va kwo None m K x HK Sp F). reflexivity. }
       destruct pm as [pobj|].
       * set (p' := mkParam x KO (Some v) None UEmpty).
         rewrite (od_set_fresh kwo p' F).
@@ -453,26 +453,27 @@ Proof.
         { apply (NoDup_count_occ N.eq_dec). intros y.
           pose proof (proj1 (NoDup_count_occ N.eq_dec _) Hn y) as Hc1.
           apply (count_occ_not_In N.eq_dec) in Hxl. count_names.
-          destruct (N.eq_dec x y) as [E|E]; [subst y|]; lia. }
+          change (pname p') with x. revert Hxl Hc1.
+          destruct (N.eq_dec x y) as [E|E]; [subst y|]; destruct (N.eq_dec (pname vkp) _); intros; lia. }
         split; [|split; [|split; [|split]]].
         -- split; [exact HK'|split; [exact Hn'|exact Hd]].
         -- reflexivity.
         -- intros y Hy. unfold kps, blk in *. cbn [k_pok k_va k_kwo] in *.
            rewrite !names_of_app in *. cbn [names_of map p' pname] in Hy.
            rewrite !in_app_iff in *. cbn [In] in Hy.
-           assert (Hne : pm_ne : (Some pobj : pmode) <> None) by discriminate.
-           tauto.
+           assert (Hne : (Some pobj : pmode) <> None) by discriminate.
+           assert (Hsym : x = y -> y = x) by congruence. tauto.
         -- cbn [k_va]. auto.
         -- intros m K _. unfold kps. cbn [k_pok k_va k_kwo].
            rewrite (stepB pos1 pok va kwo p' [] (Some vkp) m K HK' Hn' (or_introl eq_refl)).
            rewrite app_nil_r. cbn [p' pname].
            rewrite (accepts_cons_filter _ m x K).
-           rewrite (stepC pos1 pok va kwo (Some vkp) m _ x HK S F). reflexivity.
+           rewrite (stepC pos1 pok va kwo (Some vkp) m _ x HK Sp F). reflexivity.
       * split; [|split; [|split; [|split]]].
         -- split; [exact HK|split; [exact Hn|exact Hd]].
         -- reflexivity.
         -- intros y Hy. left. exact Hy.
         -- cbn [k_va]. auto.
         -- intros m K _. unfold kps. cbn [k_pok k_va k_kwo].
-           rewrite (stepC pos1 pok va kwo (Some vkp) m K x HK S F). reflexivity.
+           rewrite (stepC pos1 pok va kwo (Some vkp) m K x HK Sp F). reflexivity.
 Qed.
